@@ -121,6 +121,30 @@ fn src_of(what: &str) -> &str {
 	what.split(':').nth(1).unwrap_or("?")
 }
 
+/// 0: UTF-16LE, 1: UTF-16BE with BOM, 2: UTF-32BE, 3: UTF-32LE with BOM
+pub fn encode_text(text: &str, enc: u32) -> Vec<u8> {
+	let mut out = vec![];
+	match enc {
+		0 | 1 => {
+			if enc == 1 {
+				out.extend_from_slice(&[0xFE, 0xFF]);
+			}
+			for u in text.encode_utf16() {
+				out.extend_from_slice(&if enc == 0 { u.to_le_bytes() } else { u.to_be_bytes() });
+			}
+		}
+		_ => {
+			if enc == 3 {
+				out.extend_from_slice(&[0xFF, 0xFE, 0, 0]);
+			}
+			for c in text.chars() {
+				out.extend_from_slice(&if enc == 2 { (c as u32).to_be_bytes() } else { (c as u32).to_le_bytes() });
+			}
+		}
+	}
+	out
+}
+
 /// Shows the neighbourhood of the first difference between two dumps.
 pub fn first_diff(got: &str, want: &str) -> String {
 	let i = got.bytes().zip(want.bytes()).position(|(a, b)| a != b).unwrap_or(got.len().min(want.len()));
@@ -166,6 +190,23 @@ pub fn run(ctx: &Ctx) -> CheckOutput {
 							}
 						} else {
 							acc.t.count("detected-otherwise(not judged here; see C09/C10)");
+						}
+					}
+					// UTF-16/32 spellings of the same YAML text (C07 goes deeper; here they are just
+					// further spellings of the same value)
+					if src == F::Yaml && st == 3 && matches!(doc.family, "all-scalars" | "strings" | "tree") {
+						if let Ok(text) = std::str::from_utf8(&input) {
+							for enc in 0..4 {
+								let bytes = encode_text(text, enc);
+								for to in [F::Json, F::Msgpack] {
+									if let Some(expected) = expected_for(&doc.v, to) {
+										acc.t.count("yaml-utf16/32-spellings");
+										for mode in [Mode::Slice, Mode::Reader3] {
+											judge(acc, &bytes, Some(src), to, mode, &expected, &format!("{}:yaml-enc{enc}:style{st}", doc.family));
+										}
+									}
+								}
+							}
 						}
 					}
 					if idx % 997 == 0 && st == 0 {
